@@ -1,10 +1,14 @@
-'''C11 rules: concatenation and overlay keep every input cell once, aligned by label.'''
+'''C11 rules: concatenation and overlay keep every input cell once, aligned by label.
+
+All matching is by role (loop targets, what a local is assigned from, which list an append goes to), never by
+the identifier of a local; parameters and attribute / callee names are API and are matched by name.'''
 from __future__ import annotations
 
 import ast
 import copy
 import typing as tp
 
+from sfa import roles
 from sfa.model import AnalysisError
 from sfa.model import FuncInfo
 from sfa.model import call_name
@@ -12,31 +16,71 @@ from sfa.model import kwarg
 from sfa.model import norm
 from sfa.model import walk_local
 from sfa.report import Ctx
+from sfa.rules.frozen import _enclosing_tests
 
 
-def _swap_axes(stmts: tp.Sequence[ast.stmt]) -> str:
-    '''Mirror a statement list across the axes: index <-> columns (names, slots, own_* flags), Index <-> cls._COLUMNS_CONSTRUCTOR.'''
+def _normalise(st: ast.stmt) -> None:
+    for x in ast.walk(st):
+        if isinstance(x, ast.Raise) and isinstance(x.exc, ast.Call):
+            x.exc.args = []
+    _sort_keywords(st)
+    _alpha_comprehensions(st)
+
+
+def _swap_axes(stmts: tp.Sequence[ast.stmt], mirror: bool = True) -> str:
+    '''Normalised text of a statement list (messages stripped, keywords sorted, comprehension variables numbered); with
+    mirror=True reflected across the axes: index <-> columns (names, slots, own_* flags), Index <-> cls._COLUMNS_CONSTRUCTOR.'''
     import re
     names = {'index': 'columns', 'columns': 'index', 'own_index': 'own_columns', 'own_columns': 'own_index'}
     attrs = {'_index': '_columns', '_columns': '_index', 'index': 'columns', 'columns': 'index'}
     out = []
     for st in stmts:
         st = copy.deepcopy(st)
-        for x in ast.walk(st):
-            if isinstance(x, ast.Name) and x.id in names:
-                x.id = names[x.id]
-            elif isinstance(x, ast.Attribute) and x.attr in attrs:
-                x.attr = attrs[x.attr]
-            elif isinstance(x, ast.keyword) and x.arg in names:
-                x.arg = names[x.arg]
-            elif isinstance(x, ast.Raise) and isinstance(x.exc, ast.Call):
-                x.exc.args = []
+        if mirror:
+            for x in ast.walk(st):
+                if isinstance(x, ast.Name) and x.id in names:
+                    x.id = names[x.id]
+                elif isinstance(x, ast.Attribute) and x.attr in attrs:
+                    x.attr = attrs[x.attr]
+                elif isinstance(x, ast.keyword) and x.arg in names:
+                    x.arg = names[x.arg]
+        _normalise(st)
         t = norm(st)
-        t = t.replace('cls._COLUMNS_CONSTRUCTOR', '\0')
-        t = re.sub(r'\bIndex\b', 'cls._COLUMNS_CONSTRUCTOR', t)
-        t = t.replace('\0', 'Index')
+        if mirror:
+            t = t.replace('cls._COLUMNS_CONSTRUCTOR', '\0')
+            t = re.sub(r'\bIndex\b', 'cls._COLUMNS_CONSTRUCTOR', t)
+            t = t.replace('\0', 'Index')
         out.append(t)
     return '\n'.join(out)
+
+
+def _sort_keywords(node: ast.AST) -> None:
+    for c in ast.walk(node):
+        if isinstance(c, ast.Call) and all(k.arg is not None for k in c.keywords):
+            c.keywords = sorted(c.keywords, key=lambda k: k.arg or '')
+
+
+def _alpha_comprehensions(node: ast.AST) -> None:
+    '''Comprehension variables are numbered in order of appearance.'''
+    n = 0
+    for c in ast.walk(node):
+        if isinstance(c, (ast.GeneratorExp, ast.ListComp, ast.SetComp, ast.DictComp)):
+            for g in c.generators:
+                for t in ast.walk(g.target):
+                    if isinstance(t, ast.Name) and not t.id.startswith('_c'):
+                        old, new = t.id, f'_c{n}'
+                        n += 1
+                        for x in ast.walk(c):
+                            if isinstance(x, ast.Name) and x.id == old:
+                                x.id = new
+
+
+def _kwargs(c: ast.Call) -> tp.Dict[str, str]:
+    return {k.arg: norm(k.value) for k in c.keywords if k.arg}
+
+
+def _stmt_index(body: tp.Sequence[ast.stmt], pred: tp.Callable[[ast.AST], bool]) -> tp.List[int]:
+    return [i for i, s in enumerate(body) if any(pred(x) for x in ast.walk(s))]
 
 
 def frame_concat(ctx: Ctx) -> None:
@@ -47,84 +91,108 @@ def frame_concat(ctx: Ctx) -> None:
              'axes are handled as mirror images', floor=10)
     prog = ctx.prog
     f = prog.method('Frame', 'from_concat', inherited=False)
+    seq = f.params[1] if len(f.params) > 1 else 'frames'
     # one materialisation, no later mutation
-    defs = [a for a in walk_local(f.node) if isinstance(a, ast.Assign) and norm(a.targets[0]) == 'frames']
-    good = len(defs) == 1 and isinstance(defs[0].value, ast.ListComp) and norm(defs[0].value.generators[0].iter) == 'frames'
+    defs = [a for a in walk_local(f.node) if isinstance(a, ast.Assign) and norm(a.targets[0]) == seq]
+    good = len(defs) == 1 and isinstance(defs[0].value, ast.ListComp) and norm(defs[0].value.generators[0].iter) == seq and not defs[0].value.generators[0].ifs
     (ctx.ok if good else ctx.bad)(R, f, defs[0] if defs else f.node, 'inputs materialised once into a list, in input order' if good else
-                                  'the input sequence is rebuilt / reordered more than once', key='materialise')
-    muts = [c for c in ast.walk(f.node) if isinstance(c, ast.Call) and isinstance(c.func, ast.Attribute) and norm(c.func.value) == 'frames'
+                                  'the input sequence is rebuilt / reordered / filtered', key='materialise')
+    muts = [c for c in ast.walk(f.node) if isinstance(c, ast.Call) and isinstance(c.func, ast.Attribute) and norm(c.func.value) == seq
             and c.func.attr in ('sort', 'reverse', 'pop', 'remove', 'insert', 'append', 'extend', 'clear')]
-    reorder = [c for c in ast.walk(f.node) if isinstance(c, ast.Call) and call_name(c) in ('sorted', 'reversed', 'set', 'frozenset') and c.args and norm(c.args[0]) == 'frames']
+    reorder = [c for c in ast.walk(f.node) if isinstance(c, ast.Call) and call_name(c) in ('sorted', 'reversed', 'set', 'frozenset') and c.args and norm(c.args[0]) == seq]
     (ctx.ok if not muts and not reorder else ctx.bad)(R, f, (muts + reorder)[0] if muts or reorder else f.node, 'the sequence is not mutated or reordered' if not muts and not reorder else
                                                       f'`{norm((muts + reorder)[0])[:50]}` changes the input order: labels and blocks no longer correspond', key='no-reorder')
-    # labels and blocks iterate `frames`
-    iters = []
-    for n in ast.walk(f.node):
-        if isinstance(n, ast.For):
-            iters.append((norm(n.iter), n))
-        elif isinstance(n, ast.comprehension):
-            iters.append((norm(n.iter), n))
-    wanted = {('concat-labels', 'index_many_concat'), ('set-labels', 'index_many_set')}
-    for label, fn in wanted:
+    # labels: read from every input frame, in order
+    for label, fn in (('concat-labels', 'index_many_concat'), ('set-labels', 'index_many_set')):
         calls = [c for c in ast.walk(f.node) if isinstance(c, ast.Call) and call_name(c) == fn]
         ctx.require(len(calls) == 2, f'from_concat calls {fn} once per axis')
         for c in calls:
-            gen = c.args[0]
-            good = isinstance(gen, ast.GeneratorExp) and norm(gen.generators[0].iter) == 'frames' and not gen.generators[0].ifs \
-                and norm(gen.elt) in ('f._columns', 'f._index')
-            (ctx.ok if good else ctx.bad)(R, f, c, f'{fn} over `{norm(gen)[:40]}`' if good else f'{fn} does not read the labels of every input frame in order: `{norm(gen)[:60]}`',
-                                          key=f'{label}:{norm(gen.elt) if isinstance(gen, ast.GeneratorExp) else "?"}')
-    block_fns = [nf for nf in f.nested if nf.name == 'blocks']
-    ctx.require(len(block_fns) == 2, 'from_concat defines blocks() per axis')
+            gen = c.args[0] if c.args else None
+            attr = None
+            good = False
+            if isinstance(gen, ast.GeneratorExp) and len(gen.generators) == 1:
+                g0 = gen.generators[0]
+                good = norm(g0.iter) == seq and not g0.ifs and isinstance(g0.target, ast.Name) and isinstance(gen.elt, ast.Attribute) \
+                    and isinstance(gen.elt.value, ast.Name) and gen.elt.value.id == g0.target.id and gen.elt.attr in ('_columns', '_index')
+                attr = gen.elt.attr if isinstance(gen.elt, ast.Attribute) else None
+            (ctx.ok if good else ctx.bad)(R, f, c, f'{fn} over the {attr} of every input frame, in order' if good else f'{fn} does not read the labels of every input frame in order: `{norm(gen)[:60]}`',
+                                          key=f'{label}:{attr or "?"}')
+    # blocks(): a nested generator per axis that loops over the materialised frames
+    block_fns = [nf for nf in f.nested if any(isinstance(n, ast.For) and norm(n.iter) == seq for n in walk_local(nf.node))]
+    ctx.require(len(block_fns) == 2, 'from_concat defines a block generator per axis')
     for nf in block_fns:
-        loops = [n for n in walk_local(nf.node) if isinstance(n, ast.For) and norm(n.iter) == 'frames']
-        axis_kw = 'index' if 'reindex(index=' in norm(nf.node) else 'columns'
+        loops = [n for n in walk_local(nf.node) if isinstance(n, ast.For) and norm(n.iter) == seq]
+        reidx = [c for c in ast.walk(nf.node) if isinstance(c, ast.Call) and isinstance(c.func, ast.Attribute) and c.func.attr == 'reindex']
+        axis_kw = 'index' if any(kwarg(c, 'index') is not None for c in reidx) else 'columns'
         key = f'blocks[{axis_kw}]'
-        if len(loops) != 1:
-            ctx.bad(R, nf, nf.node, 'blocks() does not iterate the materialised frames exactly once', key=key)
+        if len(loops) != 1 or not isinstance(loops[0].target, ast.Name):
+            ctx.bad(R, nf, nf.node, 'the block generator does not iterate the materialised frames exactly once', key=key)
             continue
         lp = loops[0]
+        t = lp.target.id
         first = lp.body[0]
-        want_test = f'len(frame.{axis_kw}) != len({axis_kw}) or (frame.{axis_kw} != {axis_kw}).any()'
-        want_body = f'frame = frame.reindex({axis_kw}={axis_kw}, fill_value=fill_value)'
-        good = isinstance(first, ast.If) and norm(first.test) == want_test and len(first.body) == 1 and norm(first.body[0]) == want_body and not first.orelse
+        # if len(t.<axis>) != len(<axis>) or (t.<axis> != <axis>).any():  t = t.reindex(<axis>=<axis>, fill_value=fill_value)
+        want_atoms = {f'len({t}.{axis_kw}) != len({axis_kw})', f'({t}.{axis_kw} != {axis_kw}).any()'}
+        good = isinstance(first, ast.If) and isinstance(first.test, ast.BoolOp) and isinstance(first.test.op, ast.Or) \
+            and {norm(v) for v in first.test.values} == want_atoms and not first.orelse
+        if good:
+            acts = [s for s in first.body if not isinstance(s, ast.Pass)]
+            good = len(acts) == 1 and isinstance(acts[0], ast.Assign) and norm(acts[0].targets[0]) == t and isinstance(acts[0].value, ast.Call) \
+                and norm(acts[0].value.func) == f'{t}.reindex' and not acts[0].value.args and _kwargs(acts[0].value) == {axis_kw: axis_kw, 'fill_value': 'fill_value'}
         (ctx.ok if good else ctx.bad)(R, nf, first, f'each frame is aligned to the shared `{axis_kw}` with the caller\'s fill_value before its blocks are used' if good else
-                                      f'alignment guard changed: `{norm(first)[:90]}` (expected `if {want_test}: {want_body}`)', key=key)
-        # blocks taken from the (possibly reindexed) frame of this iteration
-        uses = [norm(x) for x in ast.walk(lp) if isinstance(x, ast.Attribute) and x.attr == '_blocks' and isinstance(x.value, ast.Name)]
-        good = bool(uses) and all(u == 'frame._blocks' or u == 'previous_frame._blocks' for u in uses)
+                                      f'alignment guard changed: `{norm(first)[:90]}` (expected: a frame whose {axis_kw} differs in length or in any label is reindexed to the shared '
+                                      f'{axis_kw} with fill_value)', key=key)
+        # blocks taken from the (possibly reindexed) frame of this iteration (or the local carrying the previous iteration's frame)
+        carried = {n for n in roles.assigned_from_all(lp, lambda v: isinstance(v, ast.Name) and v.id == t)}
+        uses = [x.value.id for x in ast.walk(lp) if isinstance(x, ast.Attribute) and x.attr == '_blocks' and isinstance(x.value, ast.Name)]
+        good = bool(uses) and all(u == t or u in carried for u in uses)
         (ctx.ok if good else ctx.bad)(R, nf, lp, 'blocks come from the aligned frame of the same iteration' if good else f'blocks are read from {sorted(set(uses))}', key=key + ':source')
     # duplicate labels raise
-    tries = [t for t in walk_local(f.node) if isinstance(t, ast.Try) and 'index_many_concat' in norm(t.body[0])]
+    tries = [t for t in walk_local(f.node) if isinstance(t, ast.Try) and any(isinstance(c, ast.Call) and call_name(c) == 'index_many_concat' for s in t.body for c in ast.walk(s))]
     ctx.require(len(tries) == 2, 'from_concat guards both index_many_concat calls')
-    for t in tries:
+    for n_try, t in enumerate(tries):
         h = t.handlers[0] if t.handlers else None
         good = h is not None and norm(h.type) == 'ErrorInitIndexNonUnique' and len(h.body) == 1 and isinstance(h.body[0], ast.Raise) and 'ErrorInitFrame' in norm(h.body[0].exc)
         (ctx.ok if good else ctx.bad)(R, f, t, 'non-unique concatenated labels raise ErrorInitFrame' if good else
-                                      'non-unique labels after concatenation no longer raise: construction falls through', key=f'dup:{norm(t.body[0])[:30]}')
+                                      'non-unique labels after concatenation no longer raise: construction falls through', key=f'dup#{n_try}')
+    # result constructor: the computed labels and the ownership flags
+    ret = [c for c in walk_local(f.node) if isinstance(c, ast.Call) and norm(c.func) == 'cls' and kwarg(c, 'own_data') is not None]
+    flags: tp.Dict[str, tp.Optional[str]] = {}
+    if ret:
+        for k in ('own_index', 'own_columns'):
+            v = kwarg(ret[0], k)
+            flags[k] = v.id if isinstance(v, ast.Name) else None
+    fnode = roles.canonical(f.node, flags)
     # mirror: the label computations of the two axis branches
     branches = {}
-    for n in walk_local(f.node):
+    for n in walk_local(fnode):
         if isinstance(n, ast.If) and norm(n.test) in ('axis == 1', 'axis == 0'):
-            branches[norm(n.test)] = [s for s in n.body if not isinstance(s, ast.FunctionDef)]
+            branches[norm(n.test)] = [s for s in n.body if not isinstance(s, (ast.FunctionDef, ast.Pass))]
     if len(branches) == 2:
-        a = '\n'.join(_strip_msgs(s) for s in branches['axis == 1'])
-        b = '\n'.join(_strip_msgs(s) for s in branches['axis == 0'])
-        good = _swap_axes(branches['axis == 1']) == b
+        good = _swap_axes(branches['axis == 1']) == _swap_axes(branches['axis == 0'], mirror=False)
         (ctx.ok if good else ctx.bad)(R, f, branches['axis == 0'][0], 'the axis-0 and axis-1 label computations are mirror images (index <-> columns)' if good else
                                       'the axis-0 and axis-1 branches are no longer mirror images of each other', key='mirror')
-    # result constructor
-    ret = [c for c in walk_local(f.node) if isinstance(c, ast.Call) and norm(c.func) == 'cls' and kwarg(c, 'own_data') is not None]
-    good = bool(ret) and norm(kwarg(ret[0], 'index')) == 'index' and norm(kwarg(ret[0], 'columns')) == 'columns' and norm(ret[0].args[0]) == 'TypeBlocks.from_blocks(block_gen())'
-    (ctx.ok if good else ctx.bad)(R, f, ret[0] if ret else f.node, 'result built from the aligned blocks with the computed index and columns', key='result')
+    good = False
+    if ret:
+        data = ret[0].args[0] if ret[0].args else kwarg(ret[0], 'data')
+        ex = roles.Expander(f.node)
+        srcs = ex.expand(data)
+        gen_names = {nf.name for nf in block_fns}
+        # TypeBlocks.from_blocks(<the block generator>() | consolidate_blocks(<the block generator>()))
+        ok_src = bool(srcs) and all(s.startswith('TypeBlocks.from_blocks(') and any(f'{g}()' in s for g in gen_names) for s in srcs)
+        good = norm(kwarg(ret[0], 'index')) == 'index' and norm(kwarg(ret[0], 'columns')) == 'columns' and ok_src
+    (ctx.ok if good else ctx.bad)(R, f, ret[0] if ret else f.node, 'result built from the aligned blocks with the computed index and columns' if good else
+                                  'the result is not built from the block generator with the computed index and columns', key='result')
 
 
-def _strip_msgs(s: ast.stmt) -> str:
-    s = copy.deepcopy(s)
-    for x in ast.walk(s):
-        if isinstance(x, ast.Raise) and isinstance(x.exc, ast.Call):
-            x.exc.args = []
-    return norm(s)
+def _appends(node: ast.AST) -> tp.List[tp.Tuple[str, ast.expr, ast.Call]]:
+    '''(list name, appended expression, call) for every `L.append(e)` under node.'''
+    return [(c.func.value.id, c.args[0], c) for c in ast.walk(node) if isinstance(c, ast.Call) and isinstance(c.func, ast.Attribute) and c.func.attr == 'append'
+            and isinstance(c.func.value, ast.Name) and len(c.args) == 1]
+
+
+def _target_names(t: ast.expr) -> tp.List[str]:
+    return [x.id for x in ast.walk(t) if isinstance(x, ast.Name)]
 
 
 def items_and_series(ctx: Ctx) -> None:
@@ -133,45 +201,182 @@ def items_and_series(ctx: Ctx) -> None:
              '(one append per yielded / recorded label, same iteration), join values with concat_resolved, and hand the frames and the '
              'built hierarchy to the concatenation together', floor=6)
     prog = ctx.prog
+    # ---- Frame.from_concat_items
     f = prog.method('Frame', 'from_concat_items', inherited=False)
-    gens = [nf for nf in f.nested if nf.name == 'gen']
-    ctx.require(len(gens) == 1, 'Frame.from_concat_items defines gen()')
+    items_p = f.params[1] if len(f.params) > 1 else 'items'
+    gens = [nf for nf in f.nested if nf.is_generator and any(isinstance(n, ast.For) and norm(n.iter) == items_p for n in walk_local(nf.node))]
+    ctx.require(len(gens) == 1, 'Frame.from_concat_items defines one generator over items')
     g = gens[0]
-    lp = [n for n in walk_local(g.node) if isinstance(n, ast.For)]
-    body = norm(lp[0]) if lp else ''
-    good = bool(lp) and norm(lp[0].iter) == 'items' and 'frames.append(frame)' in body and 'yield (label, frame._index)' in body and 'yield (label, frame._columns)' in body
-    app_before = bool(lp) and [i for i, s in enumerate(lp[0].body) if norm(s) == 'frames.append(frame)'] < [i for i, s in enumerate(lp[0].body) if isinstance(s, ast.If) and 'yield' in norm(s)]
-    (ctx.ok if good and app_before else ctx.bad)(R, g, g.node, 'each item appends its frame and yields (label, that frame\'s axis index) in one pass' if good and app_before else
-                                                 'frames and (label, index) pairs are not produced in the same pass / same order', key='Frame.from_concat_items:gen')
+    lp = [n for n in walk_local(g.node) if isinstance(n, ast.For) and norm(n.iter) == items_p][0]
+    tn = _target_names(lp.target)
+    problems = []
+    lst = None
+    if len(tn) != 2:
+        problems.append('the loop does not unpack (label, frame)')
+    else:
+        lab, frm = tn
+        apps = [(l, e) for l, e, _c in _appends(lp) if isinstance(e, ast.Name) and e.id == frm]
+        if len(apps) != 1:
+            problems.append(f'{len(apps)} appends of the item\'s frame per iteration')
+        else:
+            lst = apps[0][0]
+        ys = [y for y in ast.walk(lp) if isinstance(y, ast.Yield)]
+        if not ys:
+            problems.append('no (label, index) pair is yielded')
+        for y in ys:
+            v = y.value
+            ok = isinstance(v, ast.Tuple) and len(v.elts) == 2 and isinstance(v.elts[0], ast.Name) and v.elts[0].id == lab \
+                and isinstance(v.elts[1], ast.Attribute) and isinstance(v.elts[1].value, ast.Name) and v.elts[1].value.id == frm and v.elts[1].attr in ('_index', '_columns')
+            if not ok:
+                problems.append(f'yields `{norm(v)}`, not (this item\'s label, this item\'s frame\'s axis labels)')
+        i_app = _stmt_index(lp.body, lambda x: isinstance(x, ast.Call) and isinstance(x.func, ast.Attribute) and x.func.attr == 'append')
+        i_y = _stmt_index(lp.body, lambda x: isinstance(x, ast.Yield))
+        if i_app and i_y and not (max(i_app) < min(i_y)):
+            problems.append('the frame is appended after its label pair is yielded')
+        if any(isinstance(s, (ast.Continue, ast.Break)) for s in ast.walk(lp)):
+            problems.append('an item can be skipped on one side only')
+    (ctx.bad if problems else ctx.ok)(R, g, g.node, '; '.join(problems) or 'each item appends its frame and yields (label, that frame\'s axis index) in one pass',
+                                      key='Frame.from_concat_items:gen')
+    ex = roles.Expander(f.node)
     call = [c for c in walk_local(f.node) if isinstance(c, ast.Call) and call_name(c) == 'cls.from_concat']
-    good = bool(call) and norm(call[0].args[0]) == 'frames' and all(norm(kwarg(call[0], k)) == k for k in ('axis', 'union', 'name', 'fill_value', 'consolidate_blocks')) \
-        and any(k.arg is None and norm(k.value) == 'kwargs' for k in call[0].keywords)
-    (ctx.ok if good else ctx.bad)(R, f, call[0] if call else f.node, 'from_concat receives the collected frames, every option unchanged, and the hierarchy as index/columns' if good else
-                                  'from_concat_items does not forward the collected frames / options / hierarchy unchanged', key='Frame.from_concat_items:forward')
-    axis_ok = 'kwargs = dict(index=ih)' in norm(f.node) and 'kwargs = dict(columns=ih)' in norm(f.node)
-    (ctx.ok if axis_ok else ctx.bad)(R, f, f.node, 'the hierarchy labels the concatenated axis (index for axis 0, columns for axis 1)', key='Frame.from_concat_items:axis')
+    problems = []
+    if not call:
+        problems.append('from_concat is not called')
+    else:
+        c0 = call[0]
+        if not (c0.args and isinstance(c0.args[0], ast.Name) and c0.args[0].id == lst):
+            problems.append(f'from_concat receives `{norm(c0.args[0]) if c0.args else "?"}`, not the list the generator fills')
+        for k in ('axis', 'union', 'name', 'fill_value', 'consolidate_blocks'):
+            if k in f.params and norm(kwarg(c0, k)) != k:
+                problems.append(f'{k} is not forwarded unchanged')
+        star = [k.value for k in c0.keywords if k.arg is None]
+        if len(star) != 1:
+            problems.append('the hierarchy is not handed over')
+    (ctx.bad if problems else ctx.ok)(R, f, call[0] if call else f.node, '; '.join(problems) or 'from_concat receives the collected frames, every option unchanged, and the hierarchy as index/columns',
+                                      key='Frame.from_concat_items:forward')
+    # the hierarchy labels the concatenated axis
+    problems = []
+    n_d = 0
+    for a in walk_local(f.node):
+        if isinstance(a, ast.Assign) and isinstance(a.value, ast.Call) and call_name(a.value) == 'dict' and len(a.value.keywords) == 1 and a.value.keywords[0].arg in ('index', 'columns'):
+            n_d += 1
+            kw = a.value.keywords[0]
+            tests = {norm(t) for t, pol in _enclosing_tests(f.node, a) if pol}
+            want = 'axis == 0' if kw.arg == 'index' else 'axis == 1'
+            if want not in tests:
+                problems.append(f'{kw.arg}= hierarchy is built outside the `{want}` branch')
+            src = ex.expand(kw.value)
+            if not all('.from_index_items(' in s and f'{g.name}()' in s for s in src):
+                problems.append(f'{kw.arg}= is `{sorted(src)}`, not the hierarchy built from the generator')
+    if n_d != 2:
+        problems.append('the hierarchy is not passed as index for axis 0 and as columns for axis 1')
+    (ctx.bad if problems else ctx.ok)(R, f, f.node, '; '.join(problems) or 'the hierarchy labels the concatenated axis (index for axis 0, columns for axis 1)', key='Frame.from_concat_items:axis')
+
+    # ---- Series.from_concat_items
     s = prog.method('Series', 'from_concat_items', inherited=False)
-    gens = [nf for nf in s.nested if nf.name == 'gen']
-    body = norm(gens[0].node) if gens else ''
-    good = 'array_values.append(series.values)' in body and 'yield (label, series._index)' in body and 'values = concat_resolved(array_values)' in norm(s.node)
-    (ctx.ok if good else ctx.bad)(R, s, s.node, 'values and (label, index) pairs collected in one pass; values joined by concat_resolved' if good else
-                                  'Series.from_concat_items pairs values and labels from different passes', key='Series.from_concat_items')
+    items_p = s.params[1] if len(s.params) > 1 else 'items'
+    gens = [nf for nf in s.nested if nf.is_generator and any(isinstance(n, ast.For) and norm(n.iter) == items_p for n in walk_local(nf.node))]
+    problems = []
+    if len(gens) != 1:
+        problems.append('no single generator over items')
+    else:
+        lp = [n for n in walk_local(gens[0].node) if isinstance(n, ast.For) and norm(n.iter) == items_p][0]
+        tn = _target_names(lp.target)
+        if len(tn) != 2:
+            problems.append('the loop does not unpack (label, series)')
+        else:
+            lab, ser = tn
+            apps = [(l, e) for l, e, _c in _appends(lp)]
+            vals = [l for l, e in apps if norm(e) == f'{ser}.values']
+            if len(vals) != 1 or len(apps) != 1:
+                problems.append('the values of each item are not appended exactly once per iteration')
+            ys = [y for y in ast.walk(lp) if isinstance(y, ast.Yield)]
+            if len(ys) != 1 or norm(ys[0].value) != f'({lab}, {ser}._index)':
+                problems.append('the (label, index) pair of the same item is not yielded once per iteration')
+            ex = roles.Expander(s.node)
+            res = [c for c in walk_local(s.node) if isinstance(c, ast.Call) and norm(c.func) == 'cls' and c.args]
+            if not res:
+                problems.append('no result constructor')
+            for c in res:
+                data = ex.expand(c.args[0])
+                idx = ex.expand(kwarg(c, 'index'))
+                if vals and not (data <= {f'concat_resolved({vals[0]})', 'EMPTY_TUPLE'} and f'concat_resolved({vals[0]})' in data):
+                    problems.append(f'result values are {sorted(data)}, not concat_resolved of the collected arrays')
+                if not (idx and all(t == 'None' or ('.from_index_items(' in t and f'{gens[0].name}()' in t) for t in idx) and any(t != 'None' for t in idx)):
+                    problems.append(f'result index is {sorted(idx)}, not the hierarchy built from the same pass')
+    (ctx.bad if problems else ctx.ok)(R, s, s.node, '; '.join(problems) or 'values and (label, index) pairs collected in one pass; values joined by concat_resolved', key='Series.from_concat_items')
+
+    # ---- Series.from_concat
     c = prog.method('Series', 'from_concat', inherited=False)
-    lp = [n for n in walk_local(c.node) if isinstance(n, ast.For) and norm(n.iter) == 'containers']
-    body = norm(lp[0]) if lp else ''
-    good = 'array_values.append(c.values)' in body and 'indices.append(c.index)' in body and 'values = concat_resolved(array_values)' in norm(c.node) \
-        and 'index = index_many_concat(indices, cls_default=Index)' in norm(c.node)
-    (ctx.ok if good else ctx.bad)(R, c, c.node, 'values and indices of each container are collected in the same iteration and joined in that order' if good else
-                                  'Series.from_concat collects values and indices differently', key='Series.from_concat')
-    ret = [x for x in walk_local(c.node) if isinstance(x, ast.Return) and isinstance(x.value, ast.Call) and norm(x.value.func) == 'cls' and norm(x.value.args[0]) == 'values']
-    good = bool(ret) and norm(kwarg(ret[0].value, 'index')) == 'index'
-    (ctx.ok if good else ctx.bad)(R, c, ret[0] if ret else c.node, 'result pairs the joined values with the joined index', key='Series.from_concat:result')
+    seq = c.params[1] if len(c.params) > 1 else 'containers'
+    lps = [n for n in walk_local(c.node) if isinstance(n, ast.For) and norm(n.iter) == seq and isinstance(n.target, ast.Name)]
+    problems = []
+    vlist = ilist = None
+    if len(lps) != 1:
+        problems.append('containers are not walked exactly once')
+    else:
+        t = lps[0].target.id
+        apps = _appends(lps[0])
+        v = [l for l, e, _ in apps if norm(e) == f'{t}.values']
+        i = [l for l, e, _ in apps if norm(e) in (f'{t}.index', f'{t}._index')]
+        if len(v) != 1 or len(i) != 1:
+            problems.append('values and index of each container are not each appended once in the same iteration')
+        else:
+            vlist, ilist = v[0], i[0]
+        if any(isinstance(x, (ast.Continue, ast.Break)) for x in ast.walk(lps[0])):
+            problems.append('a container can be skipped on one side only')
+    ex = roles.Expander(c.node)
+    joined_idx = [a for a in walk_local(c.node) if isinstance(a, ast.Assign) and isinstance(a.value, ast.Call) and call_name(a.value) == 'index_many_concat']
+    if not (joined_idx and all(a.value.args and isinstance(a.value.args[0], ast.Name) and a.value.args[0].id == ilist for a in joined_idx)):
+        problems.append('the result index is not index_many_concat of the collected indices')
+    (ctx.bad if problems else ctx.ok)(R, c, c.node, '; '.join(problems) or 'values and indices of each container are collected in the same iteration and joined in that order', key='Series.from_concat')
+    rets = [x for x in walk_local(c.node) if isinstance(x, ast.Return) and isinstance(x.value, ast.Call) and norm(x.value.func) == 'cls' and x.value.args
+            and vlist is not None and ex.expand(x.value.args[0]) == {f'concat_resolved({vlist})'}]
+    good = bool(rets) and all(norm(kwarg(r.value, 'index')) == 'index' for r in rets) and bool(joined_idx) and all(norm(a.targets[0]) == 'index' for a in joined_idx)
+    (ctx.ok if good else ctx.bad)(R, c, rets[0] if rets else c.node, 'result pairs the joined values with the joined index' if good else
+                                  'the result does not pair concat_resolved(values) with the joined index', key='Series.from_concat:result')
+
+    # ---- vstack
     v = prog.func('type_blocks.TypeBlocks.vstack_blocks_to_blocks')
+    seq = v.params[0] if v.params else 'type_blocks'
     ys = [y for y in walk_local(v.node) if isinstance(y, ast.Yield)]
-    good = len(ys) == 2 and all(norm(y.value) == 'concat_resolved(block_parts)' for y in ys)
+    good = len(ys) >= 2 and all(isinstance(y.value, ast.Call) and call_name(y.value) == 'concat_resolved' and len(y.value.args) == 1 and isinstance(y.value.args[0], ast.Name) for y in ys)
     (ctx.ok if good else ctx.bad)(R, v, v.node, 'both vstack strategies join parts with concat_resolved' if good else 'vstack joins parts without the resolver', key='vstack:concat_resolved')
-    parts_ok = 'for tb_proto_idx in range(len(tb_proto))' in norm(v.node) and '[tb._extract_array(column_key=i) for tb in type_blocks]' in norm(v.node)
-    (ctx.ok if parts_ok else ctx.bad)(R, v, v.node, 'parts are taken from every TypeBlocks in sequence order', key='vstack:order')
+    ex = roles.Expander(v.node)
+    problems = []
+    for y in ys:
+        if not (isinstance(y.value, ast.Call) and y.value.args and isinstance(y.value.args[0], ast.Name)):
+            continue
+        parts = y.value.args[0].id
+        encl = [lp for lp in walk_local(v.node) if isinstance(lp, ast.For) and any(x is y for x in ast.walk(lp))]
+        inner = encl[-1] if encl else None
+        pdefs = [a.value for a in (ast.walk(inner) if inner is not None else []) if isinstance(a, ast.Assign) and norm(a.targets[0]) == parts]
+        if len(pdefs) != 1:
+            problems.append('the parts list is not rebuilt once per output block')
+            continue
+        d = pdefs[0]
+        if isinstance(d, ast.ListComp):
+            g0 = d.generators[0]
+            if not (len(d.generators) == 1 and norm(g0.iter) == seq and not g0.ifs and any(isinstance(x, ast.Name) and x.id in _target_names(g0.target) for x in ast.walk(d.elt))):
+                problems.append('parts are not taken from every TypeBlocks in sequence order')
+        else:
+            # [] + append inside `for i in range(len(X))` of X[i], X = the sequence or its per-element consolidation
+            loops = [lp for lp in ast.walk(inner) if isinstance(lp, ast.For) and lp is not inner and any(l == parts for l, _e, _c in _appends(lp))]
+            ok = False
+            for lp in loops:
+                it = lp.iter
+                if isinstance(it, ast.Call) and call_name(it) == 'range' and len(it.args) == 1 and isinstance(it.args[0], ast.Call) and call_name(it.args[0]) == 'len' \
+                        and it.args[0].args and isinstance(lp.target, ast.Name):
+                    x = it.args[0].args[0]
+                    srcs = ex.expand(x)
+                    from_seq = all(t == seq or (t.startswith('[') and t.endswith(f' in {seq}]')) for t in srcs)
+                    want = f'{norm(x)}[{lp.target.id}]'
+                    inl = roles.Inliner(lp)
+                    indexed = all(want in inl.text(e) for l, e, _c in _appends(lp) if l == parts)
+                    ok = from_seq and indexed and not any(isinstance(s, (ast.Continue, ast.Break)) for s in ast.walk(lp))
+            if not ok:
+                problems.append('parts are not taken from every TypeBlocks in sequence order')
+    (ctx.bad if problems else ctx.ok)(R, v, v.node, '; '.join(sorted(set(problems))) or 'parts are taken from every TypeBlocks in sequence order', key='vstack:order')
 
 
 def overlay(ctx: Ctx) -> None:
@@ -179,25 +384,59 @@ def overlay(ctx: Ctx) -> None:
     ctx.rule(R, 'from_overlay walks the containers in input order, aligns each to the one shared index (and columns), and changes the '
              'accumulated result only through fillna / fillna_by_values — missing cells are filled, present cells are never assigned', floor=6)
     prog = ctx.prog
-    for cname, walker, filler in (('Frame', 'containers_iter', 'post._blocks.fillna_by_values(values)'), ('Series', 'container_iter', 'post.fillna(container)')):
+    for cname, fillers in (('Frame', ('fillna_by_values',)), ('Series', ('fillna',))):
         f = prog.method(cname, 'from_overlay', inherited=False)
-        src = norm(f.node)
-        it_def = f'{walker} = iter(containers)' in src
-        first = f'next({walker})' in src
+        seq = f.params[1] if len(f.params) > 1 else 'containers'
+        walker = roles.assigned_from(f.node, lambda v: isinstance(v, ast.Call) and call_name(v) == 'iter' and v.args and norm(v.args[0]) == seq)
+        firsts = [c for c in walk_local(f.node) if isinstance(c, ast.Call) and call_name(c) == 'next' and c.args and norm(c.args[0]) == walker]
         loops = [n for n in walk_local(f.node) if isinstance(n, ast.For) and norm(n.iter) == walker]
-        good = it_def and first and len(loops) == 1
+        other_walks = [n for n in walk_local(f.node) if isinstance(n, ast.For) and norm(n.iter) == seq]
+        good = walker is not None and len(firsts) == 1 and len(loops) == 1 and not other_walks and not any(any(x is firsts[0] for x in ast.walk(lp)) for lp in loops)
         (ctx.ok if good else ctx.bad)(R, f, loops[0] if loops else f.node, 'first container, then the rest, in input order' if good else 'containers are not walked once in input order', key=f'{cname}:order')
-        posts = [a for a in ast.walk(f.node) if isinstance(a, ast.Assign) and norm(a.targets[0]) == 'post']
-        in_loop = [a for a in posts if loops and any(x is a for x in ast.walk(loops[0]))]
-        good = bool(in_loop) and all(filler in norm(a.value) for a in in_loop)
-        (ctx.ok if good else ctx.bad)(R, f, in_loop[0] if in_loop else f.node, f'the accumulated result changes only through `{filler}`' if good else
-                                      f'inside the loop `post` is rebuilt as `{norm(in_loop[0].value)[:60] if in_loop else "?"}`: present cells can be overwritten', key=f'{cname}:fill-only')
+        # the accumulated result: what the function returns
+        rets = [r for r in walk_local(f.node) if isinstance(r, ast.Return) and isinstance(r.value, ast.Name)]
+        acc = rets[-1].value.id if rets else None
+        in_loop = [a for a in (ast.walk(loops[0]) if loops else []) if isinstance(a, ast.Assign) and acc is not None and norm(a.targets[0]) == acc]
+
+        def fills(v: ast.expr) -> bool:
+            return any(isinstance(c, ast.Call) and isinstance(c.func, ast.Attribute) and c.func.attr in fillers and any(isinstance(x, ast.Name) and x.id == acc for x in ast.walk(c.func.value))
+                       for c in ast.walk(v))
+        good = bool(in_loop) and all(fills(a.value) for a in in_loop)
+        (ctx.ok if good else ctx.bad)(R, f, in_loop[0] if in_loop else f.node, f'the accumulated result changes only through {"/".join(fillers)} of itself' if good else
+                                      f'inside the loop the accumulated result is rebuilt as `{norm(in_loop[0].value)[:60] if in_loop else "?"}`: present cells can be overwritten', key=f'{cname}:fill-only')
         idx = [c for c in ast.walk(f.node) if isinstance(c, ast.Call) and call_name(c) == 'index_many_set']
         good = bool(idx) and all(norm(kwarg(c, 'union')) == 'union' for c in idx)
         (ctx.ok if good else ctx.bad)(R, f, idx[0] if idx else f.node, 'shared axis = union/intersection of all containers, per the caller\'s flag', key=f'{cname}:shared-index')
     f = prog.method('Frame', 'from_overlay', inherited=False)
-    src = norm(f.node)
-    good = 'array = col_series.reindex(index, fill_value=fill_value).values' in src and 'for col, dtype_at_col in post.dtypes.items()' in src and 'values.append(array)' in src
-    (ctx.ok if good else ctx.bad)(R, f, f.node, 'fill arrays are built per column of the result, aligned to the shared index' if good else 'fill arrays are not aligned per result column', key='Frame:fill-arrays')
-    brk = 'if not post.isna().any().any(): break' in src.replace('\n', ' ')
-    (ctx.ok if brk else ctx.unk)(R, f, f.node, 'stops early only when nothing is missing any more', key='Frame:early-exit')
+    ex = roles.Expander(f.node, limit=400)
+    problems = []
+    inner = [lp for lp in walk_local(f.node) if isinstance(lp, ast.For) and norm(lp.iter).endswith('.dtypes.items()')]
+    if len(inner) != 1:
+        problems.append('fill arrays are not built per column of the accumulated result')
+    else:
+        lp = inner[0]
+        col = _target_names(lp.target)[0] if _target_names(lp.target) else None
+        apps = [(l, e) for l, e, _c in _appends(lp)]
+        top = [s for s in lp.body if isinstance(s, ast.Expr) and isinstance(s.value, ast.Call) and isinstance(s.value.func, ast.Attribute) and s.value.func.attr == 'append']
+        if len(apps) != 1 or len(top) != 1:
+            problems.append('not exactly one fill array is appended per column, unconditionally')
+        else:
+            srcs = ex.expand(apps[0][1], depth=2)       # the array's definitions, with the column Series spelled out
+            reindexed = [t for t in srcs if '.reindex(index' in t and f'[{col}]' in t]
+            others = [t for t in srcs if t not in reindexed]
+            if not reindexed:
+                problems.append('the fill array of a column the container has is not that column reindexed to the shared index')
+            # a cache of constant fill columns: every array stored into it is np.full(len(index), ...)
+            caches = set()
+            for a in ast.walk(f.node):
+                if isinstance(a, ast.Assign) and isinstance(a.targets[0], ast.Subscript) and isinstance(a.targets[0].value, ast.Name):
+                    caches.add(a.targets[0].value.id)
+            sized_caches = {c for c in caches if all(any('len(index)' in t for t in ex.expand(a.value, depth=1)) for a in ast.walk(f.node)
+                                                     if isinstance(a, ast.Assign) and isinstance(a.targets[0], ast.Subscript) and norm(a.targets[0].value) == c)}
+            bad_others = [t for t in others if 'len(index)' not in t and not any(t.startswith(c + '[') for c in sized_caches)]
+            if bad_others:
+                problems.append(f'a fill array not sized by the shared index: {bad_others[:1]}')
+    (ctx.bad if problems else ctx.ok)(R, f, f.node, '; '.join(problems) or 'fill arrays are built per column of the result, aligned to the shared index', key='Frame:fill-arrays')
+    brks = [b for b in ast.walk(f.node) if isinstance(b, ast.Break)]
+    ok_brk = all(any('.isna()' in norm(t) and pol for t, pol in _enclosing_tests(f.node, b)) for b in brks)
+    (ctx.ok if ok_brk else ctx.unk)(R, f, f.node, 'stops early only when nothing is missing any more', key='Frame:early-exit')
